@@ -65,6 +65,8 @@ def bary(P, x):
     d = len(P)
     A = [[Fr(P[i][j + 1]) - Fr(P[i][0]) for j in range(d)] for i in range(d)]
     det = _det(A)
+    if det == 0:
+        return [Fr(-1)] * (d + 1)        # a degenerate simplex contains nothing
     y = [Fr(x[i]) - Fr(P[i][0]) for i in range(d)]
     X = []
     for j in range(d):
@@ -465,8 +467,13 @@ def correspond(ctx, facts, ok, batch):
                 pool = [x for _, x in mesh_points(m, rng, kinds=('interior',), per_kind=6)]
                 pts = [rng.choice(pool) for _ in range(rng.randrange(1, 6))]      # repetitions allowed
                 x = np.array([fl(p) for p in pts]).T
-                cells = [int(c) for c in m.element_finder(mapping=bs.mapping)(*x)]
-                Pm = bs.probes(x)
+                try:
+                    cells = [int(c) for c in m.element_finder(mapping=bs.mapping)(*x)]
+                    Pm = bs.probes(x)
+                except Exception as ex:      # noqa: BLE001 - interior points of a valid mesh: an exception is a failing input
+                    ctx.fail(f'probes:{ename}:{type(m).__name__}:exception', f'probes / finder raised {type(ex).__name__}: {ex} on interior points',
+                             {'element': ename, 'mesh_class': type(m).__name__, 'p': m.p.tolist(), 't': m.t.tolist(), 'points': x.tolist(), 'site': 'probes'})
+                    continue
                 edofs = clist([clist([cnat(v) for v in row]) for row in bs.element_dofs])
                 inp = f'({edofs}, {clist([cnat(c) for c in cells])}, {cnat(comp)})'
                 outp = f'({clist([cnat(v) for v in Pm.row])}, {clist([cnat(v) for v in Pm.col])}, ({cnat(Pm.shape[0])}, {cnat(Pm.shape[1])}))'
